@@ -3,7 +3,7 @@ import json
 from fractions import Fraction
 
 from core.exact import Ex, rs, recover
-from core.rng import patched
+from core.rng import SemanticRandom, installed
 from core.runner import Prop
 
 
@@ -24,6 +24,51 @@ def lcc_size(nodes, edges):
     return max(cnt.values()) if cnt else 0
 
 
+def explore(run, phi):
+    """exact law of `run` over its uniform draws, however many it makes and to whichever edge it attributes them: every call of
+    random.random() is answered from [0, phi) ("low", probability phi) or from (phi, 1) ("high", probability 1 - phi); all answer
+    sequences are explored depth first.  Returns {result: probability}."""
+    lo = Ex(phi / 2) if phi > 0 else None
+    hi = Ex((1 + phi) / 2) if phi < 1 else None
+    law, stack, leaves = {}, [[]], 0
+    while stack:
+        prefix = stack.pop()
+        calls = []
+
+        def decide():
+            i = len(calls)
+            d = prefix[i] if i < len(prefix) else (0 if lo is not None else 1)
+            calls.append(d)
+            return lo if d == 0 else hi
+        out = run(decide)
+        leaves += 1
+        w = Fraction(1)
+        for d in calls:
+            w *= phi if d == 0 else 1 - phi
+        law[out] = law.get(out, 0) + w
+        if lo is not None and hi is not None:
+            for i in range(len(prefix), len(calls)):
+                stack.append(calls[:i] + [1])
+        if leaves > 5000:
+            return None
+    return law
+
+
+def percolation_law(nodes, edges, phi):
+    """brute force: every subset of the edges kept with probability phi^|kept| (1-phi)^|dropped|"""
+    N, law = len(nodes), {}
+    for mask in range(1 << len(edges)):
+        keep = [e for i, e in enumerate(edges) if mask >> i & 1]
+        w = phi ** len(keep) * (1 - phi) ** (len(edges) - len(keep))
+        if w:
+            S = Fraction(lcc_size(nodes, keep), N)
+            law[S] = law.get(S, 0) + w
+    return law
+
+
+LAW_MAX_EDGES = 6
+
+
 class C18(Prop):
     pid = "C18"
     rule = ("random graphs with 1-30 vertices (edgeless, disconnected, with self-loops), stars with 1-12 leaves, paths and cycles; "
@@ -36,6 +81,15 @@ class C18(Prop):
     search_budget = {"quick": 1500, "thorough": 10000}
 
     def gen(self, rng, i, tier):
+        c = self.gen0(rng, i, tier)
+        if i % 3 == 0 and len(c["edges"]) > LAW_MAX_EDGES:          # keep a third of the cases small enough for the exact law
+            keep = set(rng.sample(range(len(c["edges"])), LAW_MAX_EDGES))
+            c["edges"] = [e for k, e in enumerate(c["edges"]) if k in keep]
+            c["draws"] = [d for k, d in enumerate(c["draws"]) if k in keep]
+            c["shape"] = "random"
+        return c
+
+    def gen0(self, rng, i, tier):
         r = rng.random()
         if r < 0.25:
             m = rng.randint(1, 12)
@@ -87,24 +141,39 @@ class C18(Prop):
         for e, d in zip(case["edges"], case["draws"]):
             by_edge.setdefault(tuple(sorted(e)), d)
         seq = [Ex(by_edge[tuple(sorted(e))]) for e in order]
-        used = []
+        class R(SemanticRandom):
+            def __init__(self, decide=None):
+                super().__init__()
+                self.used, self.decide = [], decide
 
-        def fake_random():
-            if len(used) >= len(seq):
-                used.append(None)
-                return Ex(Fraction(1, 2))
-            used.append(seq[len(used)])
-            return seq[len(used) - 1]
+            def on_float(self, ctx):
+                if self.decide is not None:
+                    return self.decide()
+                self.used.append(seq[len(self.used)] if len(self.used) < len(seq) else None)
+                return self.used[-1] if self.used[-1] is not None else Ex(Fraction(1, 2))
         import copy
         snap = lambda: copy.deepcopy((dict(g.graph), list(g.nodes(data=True)),
                                       sorted((tuple(sorted((a, b))), sorted(d.items())) for a, b, d in g.edges(data=True))))
         before = snap()
-        with patched(random, "random", fake_random):
+        sem = R()
+        with installed(sem):
             S = bond_percolate(g, Ex(case["phi"]))
         after = snap()
         n = g.order()
-        return {"S": rs(recover(S, n)), "is_float": isinstance(S, float), "n_draws": len(used), "edge_order": order,
-                "draws_in_order": [rs(x) for x in seq], "input_untouched": before == after, "N": n}
+        obs = {"S": rs(recover(S, n)), "is_float": isinstance(S, float), "n_draws": len(sem.used), "edge_order": order,
+               "draws_in_order": [rs(x) for x in seq], "input_untouched": before == after, "N": n,
+               "rng_unexpected": sem.summary()["n_unexpected"]}
+        if len(order) <= LAW_MAX_EDGES:
+            phi = Fraction(case["phi"])
+
+            def run(decide):
+                r = R(decide)
+                with installed(r):
+                    return rs(recover(bond_percolate(g, Ex(case["phi"])), n))
+            law = explore(run, phi)
+            obs["law"] = None if law is None else sorted([k, rs(v)] for k, v in law.items())
+            obs["input_untouched"] = obs["input_untouched"] and snap() == before
+        return obs
 
     def request(self, case, obs):
         if "exc" in obs:
@@ -134,19 +203,18 @@ class C18(Prop):
             f.append(f"range: {S} is not a multiple of 1/{N} in [1/{N}, 1]")
         edges = obs["edge_order"]
         draws = [Fraction(d) for d in obs["draws_in_order"]]
-        if obs["n_draws"] != len(edges):
-            f.append(f"draws: {obs['n_draws']} uniform draws for {len(edges)} edges (one independent draw per edge expected)")
-        keep = [e for e, d in zip(edges, draws) if d <= phi]
-        want = Fraction(lcc_size(case["nodes"], keep), N)
-        if S != want:
-            f.append(f"kept-iff: result {S}, but keeping exactly the edges whose draw is <= phi gives {want}")
+        # which draw decides which edge is the implementation's business (compared with the model, not demanded by the property):
+        # the property is the LAW of the result, computed exactly below for small graphs by exploring every outcome of the draws
+        if obs.get("law") is not None:
+            got = {Fraction(k): Fraction(v) for k, v in obs["law"]}
+            want = percolation_law(case["nodes"], [tuple(e) for e in edges], phi)
+            if got != want:
+                bad = sorted(set(got) | set(want), key=lambda k: (got.get(k) == want.get(k), k))[0]
+                f.append(f"law: P(S = {bad}) = {got.get(bad, 0)}, independent retention with probability {phi} gives {want.get(bad, 0)}")
         if phi == 1 and S != Fraction(lcc_size(case["nodes"], edges), N):
             f.append("phi-one: not the largest-component fraction of the input")
         if phi == 0 and all(d > 0 for d in draws) and S != Fraction(1, N):
             f.append("phi-zero: not 1/N")
-        if case["shape"] == "star" and len(edges) == N - 1:
-            if S * N - 1 != sum(1 for d in draws if d <= phi):
-                f.append("star: N*S-1 is not the number of retained edges")
         return f
 
     def nontrivial(self, case, obs):
